@@ -1,9 +1,43 @@
 import Driver.Util
-/-! driver ops of C06 (prefix `c06.`) -/
+import Model.NameDict
+/-! driver ops of C06 (prefix `c06.`): `choose_relativity`, and whole `NameDict` histories on one line -/
 namespace Driver
 open Model
 
+def showMatch : Option (Name × Nat) → String
+  | some (k, v) => s!"ok {showName k}={v}"
+  | none => "err KeyError"
+
+partial def runNd (d : NDict) (out : List String) : List String → Option (List String)
+  | [] => some out.reverse
+  | "set" :: k :: v :: rest => do
+    let k ← parseName k; let v ← v.toNat?
+    runNd (ndSet d k v) (s!"ok {(ndSet d k v).store.length}" :: out) rest
+  | "del" :: k :: rest => do
+    let k ← parseName k
+    match ndDel d k with
+    | some d' => runNd d' (s!"ok {d'.store.length}" :: out) rest
+    | none => runNd d ("err KeyError" :: out) rest
+  | "has" :: k :: rest => do
+    let k ← parseName k
+    runNd d ((if ndHas d.store k then "true" else "false") :: out) rest
+  | "item" :: k :: rest => do
+    let k ← parseName k
+    runNd d ((match ndFind d.store k with | some v => s!"ok {v}" | none => "err KeyError") :: out) rest
+  | "get" :: k :: rest => do
+    let k ← parseName k
+    runNd d (showMatch (ndDeepest d k) :: out) rest
+  | "keys" :: rest =>
+    runNd d (("ok " ++ (if d.store.isEmpty then "-" else ";".intercalate (d.store.map fun p => showName p.1 ++ "=" ++ toString p.2))) :: out) rest
+  | _ => none
+
 def handleC06 : List String → Option String
+  | ["c06.choose", a, o, rel] => do
+    let a ← parseName a; let o ← parseOptName o; let rel ← parseBool rel
+    some (exceptName (chooseRelativity a o rel))
+  | "c06.nd" :: script => do
+    let tr ← runNd NDict.empty [] script
+    some ("|".intercalate tr)
   | _ => none
 
 end Driver
